@@ -12,7 +12,7 @@ import (
 	"github.com/taskctl/taskctl/pkg/variables"
 )
 
-var c10Values = []string{"a", "m", "z"}
+var c10Values = []string{"a", "m", "z", ""}
 var c10Levels = []string{"config", "set", "task", "stage"}
 
 type c10Render struct {
